@@ -461,6 +461,7 @@ func init() {
 		r.Required = []string{"merge-succeeded", "merge-returned-error", "write-after-merge", "rotated", "tick"}
 		r.Explore(c15Profile(r.Tier), "C15")
 		runLong(r)
+		runValues(r, "C15", true, []int{core.KV, core.K})
 	}
 	Registry["C19"] = func(r *Run) {
 		r.Rule = "every sequence of <=depth ops (KV alphabet: depth 3, in 16 RAM-mode option combinations RWMode x StartFileLoadingMode x SyncEnable x {KeyVal,Key} + 2 sparse; mixed alphabet: depth 2, 8 combinations) is executed under every combination; per-call results, the final observation and the observation after close+reopen are compared with the baseline configuration KV/FileIO/FileIO/nosync - no reference model involved; plus long deterministic KV families (4..9, thorough 14, single-put transactions in three key orders, reopen, overwrites/deletes, reopen; segment sizes 100/150/200/260) under all 18 combinations"
